@@ -58,7 +58,7 @@ MANIFEST = {
             'modifies stored contexts" is vacuous in Lean (immutable values): monitor only.',
     'note': 'version keys are built as repo patch 28 builds them (every name of the path escaped, Ctx.esc, joined by "."): '
             'against a tree without that patch histories with dotted variable names (motif gen_dotted, 5%) show the '
-            'finding version-key-collision (fixed / PENDING-28) and model and code disagree; '
+            'finding version-key-collision (fixed by 9d97e9f1) and model and code disagree; '
             'md5 version-key hashing modelled as identity; YAQL/Jinja evaluation not modelled; the whole-history '
             'theorems assume shape-stable republication of the leaf path (StableHist, decidable; evaluated by Lean '
             'on every generated history): republication with another shape is known finding G '
